@@ -304,7 +304,7 @@ func init() {
 			Kind string `json:"kind"` // s = scrape, u = update
 			H    uint64 `json:"h,omitempty"`
 			N    int    `json:"n,omitempty"` // samples, -1 fail
-			U    int    `json:"u,omitempty"` // 0 both, 1 only h1, 2 none
+			U    int    `json:"u,omitempty"` // 0 both, 1 only h1, 2 none, 3 both with h1 in_transfer
 		}
 		var alpha []ev
 		for _, h := range []uint64{1, 2} {
@@ -337,11 +337,15 @@ func init() {
 			upd := func(u int) {
 				ts := map[string][]*target.Target{}
 				keep := map[uint64]bool{}
-				if u == 0 || u == 1 {
-					ts["jr0"] = append(ts["jr0"], c14Target(1, est[1]))
+				if u == 0 || u == 1 || u == 3 {
+					t1 := c14Target(1, est[1])
+					if u == 3 {
+						t1.TargetState = target.StateInTransfer
+					}
+					ts["jr0"] = append(ts["jr0"], t1)
 					keep[1] = true
 				}
-				if u == 0 {
+				if u == 0 || u == 3 {
 					ts["jr0"] = append(ts["jr0"], c14Target(2, est[2]))
 					keep[2] = true
 				}
@@ -361,10 +365,14 @@ func init() {
 			}
 			realUpd := func(u int) {
 				ts := map[string][]*target.Target{}
-				if u == 0 || u == 1 {
-					ts["jr0"] = append(ts["jr0"], c14Target(1, est[1]))
+				if u == 0 || u == 1 || u == 3 {
+					t1 := c14Target(1, est[1])
+					if u == 3 {
+						t1.TargetState = target.StateInTransfer
+					}
+					ts["jr0"] = append(ts["jr0"], t1)
 				}
-				if u == 0 {
+				if u == 0 || u == 3 {
 					ts["jr0"] = append(ts["jr0"], c14Target(2, est[2]))
 				}
 				if err := sc.Update(ts); err != nil {
@@ -373,10 +381,10 @@ func init() {
 			}
 			modelUpd := func(m map[uint64]*ment, u int) {
 				keep := map[uint64]bool{}
-				if u == 0 || u == 1 {
+				if u == 0 || u == 1 || u == 3 {
 					keep[1] = true
 				}
-				if u == 0 {
+				if u == 0 || u == 3 {
 					keep[2] = true
 				}
 				for h := range keep {
@@ -534,6 +542,23 @@ func init() {
 			}
 		}
 		rec2()
+		// ---- (c) the same from non-initial states: target 1 already has a full window (three or four
+		// successful scrapes with different counts), then every tail over failures, broken bodies, state
+		// flips to in_transfer and back, in-flight updates and further scrapes ----------------------------
+		prefixes := [][]ev{
+			{{Kind: "s", H: 1, N: 5}, {Kind: "s", H: 1, N: 1}, {Kind: "s", H: 1, N: 2}},
+			{{Kind: "s", H: 1, N: 5}, {Kind: "s", H: 1, N: 1}, {Kind: "s", H: 1, N: 2}, {Kind: "s", H: 1, N: 0}},
+		}
+		alpha = []ev{{Kind: "s", H: 1, N: 0}, {Kind: "s", H: 1, N: 1}, {Kind: "s", H: 1, N: 5}, {Kind: "s", H: 1, N: -1}, {Kind: "fm", H: 1, N: 2},
+			{Kind: "u", U: 0}, {Kind: "u", U: 3}, {Kind: "sd", H: 1, N: 5, U: 0}, {Kind: "sd", H: 1, N: 1, U: 3}, {Kind: "s", H: 2, N: 2}}
+		for _, pre := range prefixes {
+			evs = append([]ev{}, pre...)
+			maxEv = len(pre) + 3
+			if c.Thorough() {
+				maxEv = len(pre) + 4
+			}
+			rec2()
+		}
 		r.Nontrivial += r.States / 2
 	})
 }
